@@ -11,6 +11,7 @@ import (
 	"encoding/base64"
 	"encoding/hex"
 	"fmt"
+	"math"
 	"net/http"
 	"regexp"
 	"strconv"
@@ -363,7 +364,15 @@ func ProofAuthenticate(cfg ProofConfig, inner AuthenticateFunc) (AuthenticateFun
 		// old, i.e. for up to 2*SkewSeconds after admission (plus the second
 		// the whole-second age comparison rounds away). A TTL of SkewSeconds
 		// forgot such a nonce while its proof was still inside the window.
-		cache = newNonceCache(time.Duration(2*cfg.SkewSeconds+1)*time.Second, capacity, cfg.Now)
+		// Saturate instead of overflowing: SkewSeconds is only validated as
+		// positive, and (2*skew+1) seconds no longer fits a time.Duration from
+		// about 146 years up. A wrapped (negative) TTL would expire every
+		// nonce at once and silently turn the replay cache off.
+		ttl := time.Duration(math.MaxInt64)
+		if s := int64(cfg.SkewSeconds); s <= (math.MaxInt64/int64(time.Second)-1)/2 {
+			ttl = time.Duration(2*s+1) * time.Second
+		}
+		cache = newNonceCache(ttl, capacity, cfg.Now)
 	}
 	required := cfg.Mode == ProofModeRequire
 	local := cfg
